@@ -475,18 +475,21 @@ Definition mon_step (m : mon) (x : op) (o : obs) : mon :=
           match m_pc r with
           | PAdv =>
               if negb (m_live r) then set_viol m else
-              if m_eos r then set_sub m s (with_pc r PIdle)
-              else if o_a o =? 0 then
+              if o_a o =? 0 then
+                if m_eos r then set_sub m s (with_pc r PIdle) else
                 let drained := if m_mode r =? 0 then consumed r =? npub m else m_cur r =? npub m + 1 in
                 set_sub m s (mkSr true (m_mode r) PIdle (m_start r) (m_cur r) (m_deliv r) true
                                   (m_kicked r || m_lost r || (m_closed m && drained)) (m_kicked r) (m_lost r))
-              else   (* a value: recorded with the position reported after the step; a kicked subscriber must get
-                        end of stream instead *)
-                if (HALF <=? o_c o) then set_viol m else
-                add_bad (set_sub m s (mkSr true (m_mode r) PIdle (m_start r) (o_c o)
-                                           ((o_c o, o_b o, npub m) :: m_deliv r) false (m_eos_ok r) (m_kicked r)
-                                           (m_lost r)))
-                        (m_kicked r)
+              else   (* a value, with the position reported after the step *)
+                if HALF <=? o_c o then set_viol m else
+                if m_eos r then   (* after the first end of stream nothing is recorded any more *)
+                  set_sub m s (mkSr true (m_mode r) PIdle (m_start r) (o_c o) (m_deliv r) true (m_eos_ok r)
+                                    (m_kicked r) (m_lost r))
+                else   (* recorded; a kicked subscriber must get end of stream instead *)
+                  add_bad (set_sub m s (mkSr true (m_mode r) PIdle (m_start r) (o_c o)
+                                             ((o_c o, o_b o, npub m) :: m_deliv r) false (m_eos_ok r) (m_kicked r)
+                                             (m_lost r)))
+                          (m_kicked r)
           | _ => set_viol m
           end
       | None => set_viol m
@@ -589,7 +592,7 @@ Definition rec_good_b (lg : list Z) (o : option srec) : bool :=
   | None => true
   | Some r =>
       (if m_mode r =? 0 then contig_b (m_start r) lg (m_deliv r)
-       else incr_b (m_start r) (m_deliv r) && (m_lost r || forallb (skipval_b (m_mode r) lg) (m_deliv r)))
+       else incr_b (m_start r) (m_deliv r) && forallb (skipval_b (m_mode r) lg) (m_deliv r))
       && (negb (m_eos r) || m_eos_ok r)
   end.
 
